@@ -19,6 +19,7 @@ import (
 	"verifharness/props/c15"
 	"verifharness/props/c17"
 	"verifharness/props/c18"
+	"verifharness/props/smoke"
 )
 
 var checks = map[string]func(*core.Ctx) int{
@@ -34,6 +35,7 @@ var checks = map[string]func(*core.Ctx) int{
 	"C15": c15.Run,
 	"C17": c17.Run,
 	"C18": c18.Run,
+	"smoke": smoke.Run,
 }
 
 func main() {
